@@ -112,6 +112,9 @@ def gen_set(rng, cache, max_rules=None, max_dates=None, member_cache_p=0.3):
     if max_dates is None:
         max_dates = DP.pick(6, 12)
     base = [rng.choice([2000, 2021]), rng.randrange(1, 13), 1, 0, 0, 0]
+    if rng.random() < 0.04:
+        # the first representable instants: 0001-01-01 00:00:00 onwards
+        base = [1, 1, 1, 0, 0, 0]
     sc = dict(kind="set", cache=bool(cache), base=base, rrules=[], rdates=[],
               exrules=[], exdates=[])
     for _ in range(rng.choice([0, 1, 1, 2, 2, 3, max_rules])):
@@ -182,9 +185,13 @@ def build_rule(spec, cache=None):
     from dateutil import rrule as rr
     kw = {}
     for k in ("interval", "count", "byweekday", "bymonthday", "bymonth",
-              "byhour", "bysetpos", "wkst"):
+              "byhour", "bysetpos", "wkst", "byyearday", "byweekno",
+              "byeaster", "byminute"):
         if k in spec and spec[k] is not None:
             kw[k] = spec[k]
+    if spec.get("bynweekday"):
+        # [[weekday, n], ...]: the n-th such weekday of the period
+        kw["byweekday"] = [rr.weekday(w, n) for w, n in spec["bynweekday"]]
     if spec.get("until") is not None:
         kw["until"] = dt(spec["until"])
     c = spec.get("cache", False) if cache is None else cache
@@ -294,7 +301,12 @@ def resolve(ref, L, base):
         e = L[k % len(L)]
     else:
         e = base
-    return e + datetime.timedelta(seconds=delta)
+    try:
+        return e + datetime.timedelta(seconds=delta)
+    except OverflowError:
+        # next to the first or last representable instant
+        return datetime.datetime.min if delta < 0 else \
+            datetime.datetime.max.replace(microsecond=0)
 
 
 def ridx(x, L):
